@@ -88,6 +88,9 @@ def parseEv (args : List String) : Option Ev :=
   | ["throw", i, e] => do pure (Ev.throw (← i.toNat?) (← e.toNat?))
   | ["interrupt", i, e] => do pure (Ev.interrupt (← i.toNat?) (← e.toNat?))
   | ["set", e] => e.toNat?.map Ev.setEv
+  | ["reinsert", i, ps] => do
+      let ps ← if ps == "-" then some [] else (ps.splitOn ",").mapM String.toNat?
+      pure (Ev.reinsert (← i.toNat?) ps)
   | _ => none
 
 def step (d : DSt) (line : String) : DSt × String :=
